@@ -323,6 +323,16 @@ def run_check(mod, pid, tier, seed, args, workdir, t0):
     corpus = load_corpus(pid)
     cases = list(corpus)
     gen_cases = list(mod.gen(rng, tier))
+    if tier == "thorough":
+        # several independent random streams (the fixed / exhaustive parts of a generator repeat: de-duplicated)
+        rounds = int(os.environ.get("VERIF_THOROUGH_ROUNDS", getattr(mod, "THOROUGH_ROUNDS", 4)))
+        seen = {case_hash(c) for c in gen_cases}
+        for r in range(1, rounds):
+            for c in mod.gen(random.Random((seed + r) * 1000003 + 17 + 7919 * r), tier):
+                h = case_hash(c)
+                if h not in seen:
+                    seen.add(h)
+                    gen_cases.append(c)
     cases += gen_cases
     have_driver = os.path.exists(os.path.join(VERIF, "ocaml", "driver"))
     recs = []
